@@ -763,6 +763,7 @@ BASE_MODELS = [
     (r'^std::any::type_name::|^type_name::', lambda ex, a, c: 'type-name'),
     (r'^<[ui](8|16|32|64|128|size) as (From|TryFrom)<[ui](8|16|32|64|128|size)>>::(from|try_from)$', m_int_from),
     (r'NonZero::<.*>::get$', ident), (r'NonZero::<.*>::new_unchecked$', ident),
+    (r'NonZero::<.*>::new$', lambda ex, a, c: ex.none() if ex.truth(dv(a[0]) == 0) else ex.some(dv(a[0]))),
     (r'panic_fmt|^panic$|panicking::panic|^core::panicking|^std::rt::begin_panic|unwrap_failed|expect_failed', m_panic),
     (r' as Into<.*>>::into$', None),      # placeholder replaced below (identity only for T: Into<T>)
     (r'^Arc::<.*>::clone$|Arc<.*> as Clone>::clone$', ident_ref), (r'Arc<.*> as Deref>::deref$|Box<.*> as Deref>::deref$|Box<.*> as DerefMut>::deref_mut$', m_smart_deref),
